@@ -346,13 +346,13 @@ def main(argv=None):
     if badpairs:
         rep.add({"mode": "matches", "pairs": badpairs}, {"clause": "code-matches-wrong", "subject": "Code.matches", "detail": f"Code(code).matches(mask) disagrees with the digit-for-digit predicate for {badpairs}"})
     with common.Pool() as pool:
-        cases = []
-        for i in range(n):
-            cases.append(gen_case(a.seed * 1_000_000 + i))
-            if i % 10 == 0:
-                cases.append({"mode": "bad", "seed": a.seed * 1_000_000 + i})
-        for c in cases[:2]:
-            c["want_sample"] = True
+        def gen():
+            for i in range(n):
+                yield gen_case(a.seed * 1_000_000 + i)
+                if i % 10 == 0:
+                    yield {"mode": "bad", "seed": a.seed * 1_000_000 + i}
+
+        cases = common.with_samples(gen(), 2)
         for case, res in pool.map(run_case, cases, deadline=deadline, chunksize=16):
             ev.add_run(res)
             for v in res["violations"]:
